@@ -52,7 +52,29 @@ def builtin(eng, fn, args, kwargs):
     if fn is reversed:
         return _LazyIter(list(reversed(eng.iterate(args[0]))))
     if fn is sorted and not concrete_args(args, kwargs):
-        raise Unsupported("sorted on symbolic")
+        # stable insertion sort; symbolic comparisons of keys fork the path (every ordering is explored)
+        items = eng.iterate(args[0])
+        key = kwargs.get("key")
+        if any(isinstance(x, GuardedItem) for x in items):
+            raise Unsupported("sorted over guarded items")
+        keyed = [(eng.call(key, [x], {}) if key is not None else x, x) for x in items]
+        out = []
+        for n_, (kx, x) in enumerate(keyed):
+            pos = len(out)
+            while pos > 0:
+                c = eng.compare(ast.Lt(), kx, out[pos - 1][0])
+                if eng.decide(c, ("sorted", n_, pos, len(eng.oracle.taken))):
+                    pos -= 1
+                else:
+                    break
+            out.insert(pos, (kx, x))
+        res = [x for _, x in out]
+        if kwargs.get("reverse"):
+            if is_symbolic(kwargs["reverse"]):
+                raise Unsupported("sorted with symbolic reverse")
+            # reverse=True keeps equal elements in original order: sort by reversed comparison instead of reversing
+            raise Unsupported("sorted(reverse=True) with symbolic keys")
+        return HList(res)
     if fn is any or fn is all:
         items = eng.iterate(args[0])
         cs = [eng.cond(x) for x in items]
@@ -65,10 +87,21 @@ def builtin(eng, fn, args, kwargs):
         for x in items:
             acc = eng.binop(ast.Add(), acc, x)
         return acc
-    if fn in (max, min) and not concrete_args(args, kwargs):
+    if fn in (max, min) and (not concrete_args(args, kwargs) or isinstance(kwargs.get("key"), Closure) or (args and isinstance(args[0], YSet))):
         items = eng.iterate(args[0]) if len(args) == 1 else list(args)
         if kwargs.get("key") is not None:
-            raise Unsupported("max/min with key on symbolic")
+            # first maximal (minimal) element, as CPython: strict comparison against the best so far; symbolic comparisons fork the path
+            if not items:
+                eng.do_raise(ValueError, ("max() arg is an empty sequence",), True, where="max")
+                return None
+            key = kwargs["key"]
+            best, kb = items[0], eng.call(key, [items[0]], {})
+            for n_, x in enumerate(items[1:]):
+                kx = eng.call(key, [x], {})
+                c = eng.compare(ast.Gt() if fn is max else ast.Lt(), kx, kb)
+                if eng.decide(c, ("maxkey", n_, len(eng.oracle.taken))):
+                    best, kb = x, kx
+            return best
         acc = items[0]
         for x in items[1:]:
             c = eng.compare(ast.Gt() if fn is max else ast.Lt(), x, acc)
@@ -210,6 +243,10 @@ def _isinstance(eng, obj, cls):
 
 
 def _len(eng, a):
+    if isinstance(a, YSet):
+        if all(c is True for c, _ in a.items) and not any(is_symbolic(x) for _, x in a.items):
+            return len(a.items)
+        raise Unsupported("len of a set with symbolic elements or membership")
     if isinstance(a, HList) and has_seg(a.items):
         for x in a.items:
             if isinstance(x, Seg):
